@@ -24,9 +24,10 @@ SHARDS = {'quick': 12, 'thorough': 16}
 TIMEOUT = {'quick': 400, 'thorough': 3400}
 N_CFG = {'quick': 12, 'thorough': 96}
 N_SEEDS = {'quick': 4, 'thorough': 12}
+N_BIG = {'quick': 4, 'thorough': 64}            # scale regime: 140-420 agents, sparse templates
 RULE = ('cases: seeded model configurations (plain / grid / continuous world, wrap on/off, population 4-14, system mix of births, deaths, '
-        'movers, filtered random picks with templates, tags and both, shuffles, listings; an AgentCollector) x seeds (always including 0 '
-        'and a large seed) x perturbations: baseline; global random+numpy reseeded and consumed by random amounts before every framework '
+        'movers, filtered random picks with templates, tags and both, shuffles, listings; an AgentCollector) x seeds (always including 0, a large seed '
+        'and negative seeds); a scale regime with 140-420 agents and a component carried by ~2-5 % of them x perturbations: baseline; global random+numpy reseeded and consumed by random amounts before every framework '
         'call; 1-3 unrelated models (same and different seeds) stepped between the steps; both together; fresh interpreters with '
         'PYTHONHASHSEED 0 / 1 / 12345 / random; batch_run workers with 1, 2 and 8 processes. Oracle: all digests of one (configuration, '
         'seed) are equal; global generator states are identical before and after every watched framework call. Sanity floor: digests '
@@ -34,7 +35,7 @@ RULE = ('cases: seeded model configurations (plain / grid / continuous world, wr
         'compared under >=8 perturbations; distinct by (configuration, seed).')
 ASSUMPTIONS = ['"for all seeds / hash seeds / process counts" is sampled', 'the fixture draws all of its own randomness from model.random']
 FLOORS = {'quick': {'digests_compared': 280, 'trajectories': 24, 'watched_calls': 20000, 'global_reseeds': 5000, 'interleaved_other_models': 500,
-                    'fresh_interpreter_digests': 96, 'batch_worker_digests': 72, 'distinct_seed_pairs_differ': 30, 'seed_zero_trajectories': 6,
+                    'fresh_interpreter_digests': 96, 'batch_worker_digests': 72, 'distinct_seed_pairs_differ': 30, 'big_configurations': 2, 'seed_zero_trajectories': 6,
                     'hash_seeds_used': 4, 'reach:Core.Environment.get_random_agent': 14000, 'reach:Core.Environment.shuffle': 8600},
           'thorough': {'digests_compared': 6000, 'trajectories': 500, 'watched_calls': 400000}}
 EXHAUSTIVE = {}
@@ -70,6 +71,12 @@ class Hooks:
                 self.violation = name
 
 
+def gen_big_cfg(rng):
+    """Scale regime: hundreds of agents, a sparse component (~2-5 % of the agents), few steps."""
+    return {'world': rng.choice(['plain', 'grid']), 'w': 30, 'h': 20, 'wrap': rng.random() < 0.5, 'n': rng.choice([140, 300, 420]),
+            'mix': rng.choice(['dm', 'm', 'bd']), 'steps': 3, 'rare': rng.choice([0.02, 0.03, 0.05])}
+
+
 def gen_cfg(rng):
     world = rng.choice(['plain', 'grid', 'space'])
     return {'world': world, 'w': rng.randint(3, 9), 'h': rng.randint(3, 9), 'wrap': rng.random() < 0.5, 'n': rng.randint(4, 14),
@@ -99,9 +106,14 @@ def child_digests(jobs, hashseed):
 def case_cfg(ctx, case):
     import ECAgent.Batching as batching
     from vlib.fixtures import tracemodel as tm
-    rng = ctx.rng('cfg', case['i'])
-    cfg = gen_cfg(rng)
-    seeds = [0, rng.randint(1, 10 ** 6), rng.choice([2 ** 40 + 7, 1, 42])] + [rng.randint(1, 10 ** 9) for _ in range(N_SEEDS[ctx.tier] - 3)]
+    rng = ctx.rng('cfg', case['i'], case.get('big', False))
+    cfg = gen_big_cfg(rng) if case.get('big') else gen_cfg(rng)
+    if case.get('big'):
+        ctx.count('big_configurations')
+    seeds = [0, rng.randint(1, 10 ** 6), rng.choice([2 ** 40 + 7, 1, 42]), -1, -rng.randint(2, 10 ** 9)] + \
+        [rng.randint(1, 10 ** 9) for _ in range(N_SEEDS[ctx.tier] - 3)]
+    if case.get('big'):
+        seeds = seeds[:5:2] + seeds[3:4]          # 0, a large one, negative ones
     seeds = list(dict.fromkeys(seeds))
     digests = {s: {} for s in seeds}
     for s in seeds:
@@ -177,6 +189,9 @@ def run(ctx):
     for i in range(N_CFG[ctx.tier]):
         if ctx.mine(i) and not ctx.full():
             ctx.run_case({'kind': 'cfg', 'i': i}, run_case)
+    for i in range(N_BIG[ctx.tier]):
+        if ctx.mine(i) and not ctx.full():
+            ctx.run_case({'kind': 'cfg', 'i': i, 'big': True}, run_case)
 
 
 def replay(ctx, case):
